@@ -107,10 +107,57 @@ def IntervalTier_init(self, name, entries, minT, maxT):
 
 def PointTier_init(self, name, entries, minT, maxT):
     E = sorted([norm_point(e) for e in entries])
-    lo = hull_lo([e.time for e in E], minT)
-    hi = hull_hi([e.time for e in E], maxT)
+    # a point tier takes the hull of the point times and of whichever bounds are given
+    times = [e.time for e in E]
+    if minT is not None:
+        times = times + [float(minT)]
+    if maxT is not None:
+        times = times + [float(maxT)]
+    if len(times) == 0:
+        raise errors.TimelessTextgridTierException()
+    lo = min(times)
+    hi = max(times)
     self.name = name
     self._entries = E
     self.minTimestamp = lo
     self.maxTimestamp = hi
     self.errorReporter = utils.reportWarning
+
+
+# ---- C06: crop of tiers ----------------------------------------------------------------
+# "Without rebasing, timestamps are untouched and the span is [a,b]; with rebasing all
+# timestamps are shifted so the window (or an earlier-starting lax interval) begins at 0 and
+# the span is [0, b-a]; in lax mode either span is widened just enough to contain overhanging
+# intervals.  A window containing no entries yields an empty tier with that span, never an
+# error, whereas a window with a >= b is rejected with ArgumentError."
+
+from praatio.data_classes.interval_tier import IntervalTier
+from praatio.data_classes.point_tier import PointTier
+
+
+def shift_interval(e, d):
+    return Interval(e.start - d, e.end - d, e.label)
+
+
+def IntervalTier_crop(self, cropStart, cropEnd, mode, rebaseToZero):
+    if mode not in CROP_MODES:
+        raise errors.WrongOption("mode", mode, CROP_MODES)
+    if cropStart >= cropEnd:
+        raise errors.ArgumentError("")
+    K = [kept_value(e, cropStart, cropEnd, mode) for e in self.entries if keep(e, cropStart, cropEnd, mode)]
+    if rebaseToZero is True:
+        if len(K) == 0:
+            d = cropStart
+        else:
+            d = min(cropStart, K[0].start)
+        return IntervalTier(self.name, [shift_interval(e, d) for e in K], 0.0, cropEnd - cropStart)
+    return IntervalTier(self.name, K, cropStart, cropEnd)
+
+
+def PointTier_crop(self, cropStart, cropEnd, mode, rebaseToZero):
+    if cropStart >= cropEnd:
+        raise errors.ArgumentError("")
+    K = [p for p in self.entries if cropStart <= p.time and p.time <= cropEnd]
+    if rebaseToZero is True:
+        return PointTier(self.name, [Point(p.time - cropStart, p.label) for p in K], 0.0, cropEnd - cropStart)
+    return PointTier(self.name, K, cropStart, cropEnd)
